@@ -85,7 +85,7 @@ PROBES = ['side:server', 'side:client', 'cut:inside-2-byte-header', 'cut:extende
           'ping-in-fragmented', 'ping-standalone', 'pong-unsolicited', 'app-write', 'peer-close', 'app-close', 'traffic-after-close',
           'several-frames-in-one-read', 'fault:short_read', 'fault:short_write', 'mask:zero-key', 'client-early-frames']
 TIERS = {
-    'quick': dict(runs=9000, wall=30, chunk=50, cfg=dict(max_ops=5, big=6)),
+    'quick': dict(runs=22000, wall=30, chunk=50, cfg=dict(max_ops=5, big=6)),
     'thorough': dict(runs=250000, wall=600, chunk=200, cfg=dict(max_ops=10, big=3)),
 }
 
